@@ -79,6 +79,16 @@ pub struct StreamSpec {
     pub pattern: Pattern,
     /// virtual milliseconds slept before send i (cyclic)
     pub gaps_ms: Vec<u64>,
+    /// subscribers are read while the publisher is still sending (otherwise only after finish()
+    /// returned, which needs the whole exchange to fit into the flow-control windows)
+    #[serde(default)]
+    pub early_readers: bool,
+}
+
+impl StreamSpec {
+    pub fn total_bytes(&self) -> usize {
+        self.payloads.iter().map(|p| p.0).sum()
+    }
 }
 
 pub struct DynComp(pub Box<dyn Compress + Send + Sync>);
@@ -234,7 +244,7 @@ where
 {
     let mut rep = StreamReport::default();
     // subscribers first; their registration gets a settle period
-    let mut subs = vec![];
+    let mut subs: Vec<_> = vec![];
     for _ in 0..spec.n_subs.max(1) {
         let mut b = sub_client.subscriber(topic).with_decoder(decoder.clone());
         if let Some((kind, _)) = spec.comp {
@@ -252,6 +262,36 @@ where
     }
     let mut publisher = ACTOR.scope(pub_group, b.open()).await?;
     let mut accepted: Vec<Item> = vec![];
+    // Each subscriber is read by its own task, which is polled only when the subscriber itself
+    // asks to be woken (a timeout around next() would re-poll it and mask a lost wake-up).
+    type Readers<Item> = Vec<(Rc<RefCell<Vec<Item>>>, Rc<RefCell<Vec<String>>>, tokio::task::JoinHandle<()>)>;
+    let mut readers: Readers<Item> = vec![];
+    let spawn_readers = |subs: &mut Vec<selium::keep_alive::pubsub::KeepAlive<selium::pubsub::Subscriber<D, Item>>>, readers: &mut Readers<Item>| {
+        for (si, mut sub) in subs.drain(..).enumerate() {
+            let got: Rc<RefCell<Vec<Item>>> = Rc::new(RefCell::new(vec![]));
+            let errs: Rc<RefCell<Vec<String>>> = Rc::new(RefCell::new(vec![]));
+            let (g2, e2) = (got.clone(), errs.clone());
+            let task = tokio::task::spawn_local(ACTOR.scope(sub_group, async move {
+                while let Some(item) = sub.next().await {
+                    match item {
+                        Ok(x) => g2.borrow_mut().push(x),
+                        Err(e) => {
+                            e2.borrow_mut().push(format!("subscriber {si} error: {e}"));
+                            if e2.borrow().len() > 3 {
+                                break;
+                            }
+                        }
+                    }
+                }
+            }));
+            readers.push((got, errs, task));
+        }
+    };
+    if spec.early_readers {
+        spawn_readers(&mut subs, &mut readers);
+    }
+    // send_all() that failed half-way: what it had accepted is unknown, only a prefix may arrive
+    let mut offered_prefix_only = false;
     let gap = |i: usize| -> u64 {
         if spec.gaps_ms.is_empty() {
             0
@@ -267,8 +307,10 @@ where
                 Err(e) => {
                     rep.notes.push(format!("send_all failed: {e}"));
                     rep.refused += 1;
-                    // what was accepted before the failure is unknown: nothing is owed
-                    accepted.clear();
+                    // what was accepted before the failure is unknown: nothing is owed, but
+                    // nothing other than a prefix of what was offered may arrive
+                    accepted = items.clone();
+                    offered_prefix_only = true;
                 }
             }
         }
@@ -279,6 +321,9 @@ where
                     tokio::time::sleep(Duration::from_millis(g)).await;
                 }
                 let r = if p == Pattern::SendEach { ACTOR.scope(pub_group, publisher.send(it.clone())).await } else { ACTOR.scope(pub_group, publisher.feed(it.clone())).await };
+                if std::env::var("DST_EVENTS").is_ok() {
+                    rep.notes.push(format!("send {i} returned at {} ms", virtual_ms()));
+                }
                 match r {
                     Ok(()) => accepted.push(it.clone()),
                     Err(e) => {
@@ -294,7 +339,7 @@ where
             }
         }
     }
-    rep.sent = accepted.len();
+    rep.sent = if offered_prefix_only { 0 } else { accepted.len() };
     if let Some((size, _)) = spec.batching {
         rep.batches_by_size = accepted.len() >= size as usize && size > 0;
         rep.partial_final_batch = size > 0 && accepted.len() % (size as usize) != 0;
@@ -303,35 +348,28 @@ where
     if let Err(e) = &fin {
         rep.notes.push(format!("finish failed: {e}"));
     }
-    // Each subscriber is read by its own task, which is polled only when the subscriber itself
-    // asks to be woken (a timeout around next() would re-poll it and mask a lost wake-up). The
-    // scenario waits until everything arrived, or 60 virtual seconds after finish() returned.
-    let mut readers = vec![];
-    for (si, mut sub) in subs.into_iter().enumerate() {
-        let got: Rc<RefCell<Vec<Item>>> = Rc::new(RefCell::new(vec![]));
-        let errs: Rc<RefCell<Vec<String>>> = Rc::new(RefCell::new(vec![]));
-        let (g2, e2) = (got.clone(), errs.clone());
-        let task = tokio::task::spawn_local(ACTOR.scope(sub_group, async move {
-            while let Some(item) = sub.next().await {
-                match item {
-                    Ok(x) => g2.borrow_mut().push(x),
-                    Err(e) => {
-                        e2.borrow_mut().push(format!("subscriber {si} error: {e}"));
-                        if e2.borrow().len() > 3 {
-                            break;
-                        }
-                    }
-                }
-            }
-        }));
-        readers.push((got, errs, task));
+    if std::env::var("DST_EVENTS").is_ok() {
+        rep.notes.push(format!("finish returned at {} ms", virtual_ms()));
     }
-    let deadline = tokio::time::Instant::now() + Duration::from_secs(60);
+    if !spec.early_readers {
+        spawn_readers(&mut subs, &mut readers);
+    }
+    // The scenario waits until everything arrived or nothing at all has arrived for 180 virtual
+    // seconds (progress-based: under heavy reordering quinn's congestion window collapses and a
+    // megabyte takes a virtual minute).
+    let count = |readers: &Readers<Item>| readers.iter().map(|(g, _, _)| g.borrow().len()).sum::<usize>();
+    let mut last = count(&readers);
+    let mut deadline = tokio::time::Instant::now() + Duration::from_secs(180);
     loop {
         if readers.iter().all(|(g, _, _)| g.borrow().len() >= accepted.len()) || tokio::time::Instant::now() >= deadline {
             break;
         }
         tokio::time::sleep(Duration::from_millis(100)).await;
+        let now = count(&readers);
+        if now != last {
+            last = now;
+            deadline = tokio::time::Instant::now() + Duration::from_secs(180);
+        }
     }
     // look a little further for duplicates / foreign items
     tokio::time::sleep(Duration::from_millis(1500)).await;
@@ -340,6 +378,13 @@ where
         let got: Vec<Item> = got.borrow().clone();
         rep.notes.extend(errs.borrow().iter().cloned());
         rep.received.push(got.len());
+        if offered_prefix_only {
+            if got.len() > accepted.len() || accepted[..got.len()] != got[..] {
+                let (tag, sig) = classify(&accepted, &got);
+                rep.mismatches.push((tag, format!("after-failed-send_all:{sig}"), format!("subscriber {si}: after a failed send_all() it yielded {} items that are not a prefix of the {} offered", got.len(), accepted.len())));
+            }
+            continue;
+        }
         if fin.is_ok() && got != accepted {
             let (tag, sig) = classify(&accepted, &got);
             let show = |v: &[Item]| -> String { v.iter().take(6).map(|x| { let s = format!("{x:?}"); s.chars().take(24).collect::<String>() }).collect::<Vec<_>>().join(",") };
@@ -420,7 +465,9 @@ pub fn gen_c03(rng: &mut Rng) -> E2eScript {
     }
     let pattern = *rng.pick(&[Pattern::SendEach, Pattern::SendEach, Pattern::FeedThenFlush, Pattern::FeedThenFinish, Pattern::SendAll]);
     let gaps_ms = if rng.chance(1, 2) { vec![] } else { (0..rng.usize(1, 4)).map(|_| *rng.pick(&[0u64, 0, 1, 50, 150, 2000])).collect() };
-    E2eScript { net: mild_net(rng), rt_seed: rng.next(), streams: vec![StreamSpec { codec, comp, batching, n_subs: rng.usize(1, 2), payloads, pattern, gaps_ms }] }
+    // late readers need the whole exchange to fit into the flow-control windows
+    let early_readers = payloads.iter().map(|p| p.0).sum::<usize>() > 400_000 || rng.chance(1, 2);
+    E2eScript { net: mild_net(rng), rt_seed: rng.next(), streams: vec![StreamSpec { codec, comp, batching, n_subs: rng.usize(1, 2), payloads, pattern, gaps_ms, early_readers }] }
 }
 
 /// C14: a swarm of transform configurations per run over one pair of connections.
@@ -432,7 +479,9 @@ pub fn gen_c14(rng: &mut Rng, thorough: bool) -> E2eScript {
             let batching = if rng.chance(1, 3) { Some((*rng.pick(&[1u32, 2, 3, 10]), 100u64)) } else { None };
             let big_ok = thorough && batching.is_none() && rng.chance(1, 30);
             let n = rng.usize(1, 5);
-            StreamSpec { codec, comp, batching, n_subs: 1, payloads: (0..n).map(|_| (gen_size(rng, big_ok), rng.next())).collect(), pattern: Pattern::SendEach, gaps_ms: vec![] }
+            let payloads: Vec<(usize, u64)> = (0..n).map(|_| (gen_size(rng, big_ok), rng.next())).collect();
+            let early_readers = payloads.iter().map(|p| p.0).sum::<usize>() > 400_000 || rng.chance(1, 2);
+            StreamSpec { codec, comp, batching, n_subs: 1, payloads, pattern: Pattern::SendEach, gaps_ms: vec![], early_readers }
         })
         .collect();
     E2eScript { net: NetCfg { seed: rng.next(), loss_ppm: 0, dup_ppm: 0, min_delay_ms: 1, jitter_ms: 0 }, rt_seed: rng.next(), streams }
@@ -441,7 +490,7 @@ pub fn gen_c14(rng: &mut Rng, thorough: bool) -> E2eScript {
 pub fn execute(prop: &str, sc: &E2eScript, opts: &ExecOpts) -> Outcome {
     let mut out = Outcome::default();
     let sc2 = sc.clone();
-    let budget = Duration::from_secs(300 + 120 * sc.streams.len() as u64);
+    let budget = Duration::from_secs(600 + 240 * sc.streams.len() as u64 + sc.streams.iter().map(|s| s.total_bytes() as u64 * (1 + s.n_subs as u64) / 3_000).sum::<u64>());
     let res = run_world(sc.net, sc.rt_seed, budget, move |world: Rc<World>| async move {
         world.start_server(ServerOpts::default())?;
         let backoff = BackoffStrategy::constant().with_max_attempts(1).with_step(Duration::from_millis(200));
@@ -535,6 +584,11 @@ pub fn execute(prop: &str, sc: &E2eScript, opts: &ExecOpts) -> Outcome {
             th.word(r.net_trace);
             if opts.want_log {
                 out.log.push(format!("virtual_ms={} net={:?}", r.virtual_ms, r.net));
+                if std::env::var("DST_EVENTS").is_ok() {
+                    for e in r.events.iter().take(400) {
+                        out.log.push(format!("event @{} actor={:?} {} {:?}", e.at_ms, e.actor, e.message, e.fields));
+                    }
+                }
             }
         }
     }
